@@ -78,6 +78,14 @@ def c11(rep, tier):
     starts0 = cv is not None and cv.get('init') is not None and strip_casts(cv['init']).get('v') == 0
     okc = cv is not None and c is not None and c.get('k') == 'bin' and (c['op'] == '<' or (c['op'] == '!=' and starts0)) and \
         strip_casts(c['l']).get('d') == cv['d'] and strip_casts(c['r']).get('d') == mm.passes['d']
+    if cv is not None:
+        rank = {'bool': 0, 'char': 1, 'signed char': 1, 'unsigned char': 1, 'short': 2, 'unsigned short': 2, 'int': 3, 'unsigned int': 3, 'long': 4, 'unsigned long': 4,
+                'long long': 4, 'unsigned long long': 4}
+        ct, pt = (cv.get('cty') or '').replace('const ', ''), (mm.passes.get('cty') or '').replace('const ', '')
+        if ct in rank and pt in rank:
+            A.check(rank[ct] >= rank[pt], 'apply_macros: counter width', 'the pass counter (%s) can hold every value of the budget (%s)' % (ct, pt),
+                    'the pass counter has type %s but the budget has type %s: for budgets beyond the counter\'s range the counter wraps around, the loop condition stays '
+                    'true and a divergent expansion never returns' % (ct, pt), W(am, mm.budget, mm.facts), witness={'budget': 1024, 'macro': 'DEFINE a AS a a END DEFINE'})
     A.check(okc, 'apply_macros: loop condition', '%s < %s' % (cv['name'] if cv else '?', mm.passes['name']),
             'budget loop condition is %s: more than `passes` rewrites are possible' % (show(c) if c else 'missing'), W(am, mm.budget, mm.facts))
     inc = strip_casts(mm.budget.get('inc')) if mm.budget.get('inc') else None
@@ -577,6 +585,8 @@ def c09(rep, tier):
                     '; '.join(why), W(f, None, mm.facts),
                     witness={'input': 'DEFINE PRIO 5 foo <ID> bar AS x := 1 END DEFINE  DEFINE PRIO 5 foo <ID> AS y := 2 END DEFINE  foo z bar',
                              'effect': 'the shorter macro wins; swapping the definitions changes the result'} if why else None)
+        except cmpeval.CrossField as ex:
+            A.violation('apply_macros: min_element comparator', str(ex), W(f, None, mm.facts))
         except cmpeval.Unsupported as ex:
             A.unknown('apply_macros: min_element comparator', str(ex))
     B = rep.rule('C09.b', 'priority bins are an ascending std::map visited with reverse iterators from the highest', floor=2)
@@ -684,8 +694,20 @@ def c09(rep, tier):
                     if is_call(idx, '::operator[]') and show(idx['obj']).endswith('template_token_indices'):
                         n = mm.M.origin(gr, idx['args'][0])
                         txt = show(n)
-                        ok = 'substr(1' in txt and loopvar['name'] + '.text' in txt
+                        ok = False
                         why = 'index is %s' % txt
+                        subs = [x for x in walk_expr(n) if is_call(x, '::substr') and loopvar['name'] + '.text' in show(x.get('obj') or {})]
+                        if len(subs) == 1 and subs[0].get('args'):
+                            a0 = strip_casts(subs[0]['args'][0])
+                            a1 = strip_casts(subs[0]['args'][1]) if len(subs[0]['args']) > 1 and not subs[0]['args'][1].get('default_arg') else None
+                            rest = a1 is None or (a1.get('k') == 'bin' and a1['op'] == '-' and 'size()' in show(a1['l']) and strip_casts(a1['r']).get('v') == 1) or \
+                                is_call(a1, '::size') or is_call(a1, '::length') or 'npos' in show(a1)
+                            if a0.get('k') == 'int' and a0['v'] == 1 and rest:
+                                ok = True
+                            elif a0.get('k') == 'int' and a1 is not None and a1.get('k') == 'int':
+                                why = 'the index is parsed from %d character(s) of the token text only (%s): $10 and above denote the wrong slot' % (a1['v'], show(subs[0]))
+                            elif a0.get('k') == 'int' and a0['v'] != 1:
+                                why = 'the index is parsed from position %d of the token text (%s)' % (a0['v'], show(subs[0]))
                     else:
                         why = 'matched[] indexed by %s, not through template_token_indices' % show(idx)
                 else:
@@ -693,6 +715,7 @@ def c09(rep, tier):
                 endpos = is_call(strip_conv(inss[0]['args'][0]), '::end')
                 ok = ok and endpos
         E.check(ok, 'get_replacement: $n', 'appends matched[template_token_indices[n]] with n parsed from the text after "$"', why, W(gr, None, mm.facts))
+        insertion_index_range_rule(E, mm)
         cd = cases.get('default')
         okd = False
         if cd is not None:
@@ -791,10 +814,127 @@ def c09(rep, tier):
     for e in cmpx:
         s = show(e)
         okcc = okcc or s.count('.text') == 2 or s.count('text') >= 2
+    # every constrained literal is checked: inside the loop over the constraints only a mismatch may end the function
+    for st in walk_stmts(cc['body']):
+        if st['k'] in ('rangefor', 'for') and 'content_constraint_token_indices' in show(st.get('range') or st.get('c') or {}):
+            early = [x for x in walk_stmts(st['body']) if x['k'] == 'return' and x.get('e') is not None and
+                     not (strip_casts(x['e']).get('k') == 'bool' and strip_casts(x['e']).get('v') is False)]
+            F.check(not early, 'check_constraint: all constraints', 'inside the loop over the constrained literals only `return false` leaves the function',
+                    'the loop over the constrained literals returns %s at line %s: only the first text-constrained literal of a pattern is compared' % (
+                        show(early[0]['e'])[:50] if early else '', early[0]['loc'][0] if early else ''), W(cc, early[0] if early else None, mm.facts))
     F.check(okcc, 'check_constraint: compares text', 'found[0].text != requirement.text -> reject', 'constraint no longer compares token text', W(cc, None, mm.facts))
     c09_detector_grammar(rep, mm)
     G = rep.rule('C09.g', 'a detector scans start positions ascending and returns the first accepted, constraint-satisfying match', floor=1)
     detect_rule(G, mm)
+
+
+def insertion_index_range_rule(E, mm):
+    """An insertion token $n survives extraction only if 0 <= n < number of slots: the rejecting condition in extract_macros (or a
+    helper) is evaluated for n in {-1, 0, size-1, size, size+1} with a sample size; it must reject exactly -1, size, size+1."""
+    SIZE = 3
+    site = None
+    for f in mm.facts.functions:
+        if f.get('body') is None or not f['file'].endswith('macro.cpp') or f['tmpl'] == 'pattern' or f['q'] in ('get_replacement',):
+            continue
+        for e in walk_all_exprs(f['body']):
+            if (e.get('k') == 'call' and ((e.get('callee') or '').endswith('::push_back') or (e.get('callee') or '') == 'error')) and 'RANGE' in show(e) and \
+                    'does not reference' in show(e):
+                site = (f, e)
+    if site is None:
+        E.unknown('extract_macros: $n range', 'the check of insertion indices against the number of slots was not found')
+        return
+    f, e = site
+    g = mm.M.cfg(f)
+    def about_range(c):
+        t = show(c)
+        if 'template_token_indices' in t:
+            return True
+        for x in walk_expr(c):
+            if x.get('k') == 'ref' and x.get('dk') == 'var':
+                o = mm.M.origin(f, x)
+                if o is not None and o is not x and 'template_token_indices' in show(o):
+                    return True
+            if x.get('k') == 'call' and x.get('callee_in_repo') and x.get('obj') is None:
+                h = mm.facts.fn(x.get('callee'), optional=True)
+                if h is not None and h.get('body') is not None and any('template_token_indices' in show(y) for y in walk_all_exprs(h['body'])):
+                    return True
+        return False
+    guards = [(c, l) for c, l, cn in g.guards_of(g.ev(e)) if isinstance(l, bool) and about_range(c)]
+    if not guards:
+        E.unknown('extract_macros: $n range', 'the rejecting condition does not mention the number of slots')
+        return
+
+    class Unk(Exception):
+        pass
+
+    def val(x, n, env=None, fn=None):
+        env = env or {}
+        fn = fn or f
+        x = strip_casts(x)
+        k = x.get('k')
+        if k == 'paren':
+            return val(x['e'], n, env, fn)
+        if k == 'ref' and x.get('d') in env:
+            if env[x['d']] is None:
+                raise Unk(show(x))
+            return env[x['d']]
+        if k == 'call' and x.get('callee_in_repo') and x.get('obj') is None and 'strToInt' not in (x.get('callee') or ''):
+            h = mm.facts.fn(x.get('callee'), optional=True)
+            if h is not None and h.get('body') is not None:
+                rets = [y for y in walk_stmts(h['body']) if y['k'] == 'return' and y.get('e') is not None]
+                others = [y for y in walk_stmts(h['body']) if y['k'] not in ('return', 'block')]
+                if len(rets) == 1 and not others:
+                    env2 = {}
+                    for p, a in zip(h['params'], x['args']):
+                        try:
+                            env2[p['d']] = val(a, n, env, fn)
+                        except Unk:
+                            env2[p['d']] = None
+                    return val(rets[0]['e'], n, env2, h)
+        if k == 'int':
+            return x['v']
+        if k == 'bool':
+            return bool(x['v'])
+        if is_call(x, '::size') and 'template_token_indices' in show(x['obj']):
+            return SIZE
+        if k == 'ref' and x.get('dk') == 'var':
+            o = mm.M.origin(fn, x)
+            if o is not None and o is not x and o.get('k') == 'call' and 'strToInt' in (o.get('callee') or ''):
+                return n
+            if o is not None and o is not x:
+                return val(o, n, env, fn)
+            raise Unk(show(x))
+        if k == 'call' and 'strToInt' in (x.get('callee') or ''):
+            return n
+        if k == 'un' and x['op'] == '!':
+            return not val(x['e'], n, env, fn)
+        if k == 'un' and x['op'] == '-':
+            return -val(x['e'], n, env, fn)
+        if k == 'bin':
+            if x['op'] == '||':
+                return bool(val(x['l'], n, env, fn)) or bool(val(x['r'], n, env, fn))
+            if x['op'] == '&&':
+                return bool(val(x['l'], n, env, fn)) and bool(val(x['r'], n, env, fn))
+            a, b = val(x['l'], n, env, fn), val(x['r'], n, env, fn)
+            import operator as _o
+            ops = {'<': _o.lt, '>': _o.gt, '<=': _o.le, '>=': _o.ge, '==': _o.eq, '!=': _o.ne, '+': _o.add, '-': _o.sub}
+            if x['op'] in ops:
+                return ops[x['op']](a, b)
+        raise Unk(show(x))
+    try:
+        rejected = []
+        for n in (-1, 0, SIZE - 1, SIZE, SIZE + 1):
+            rej = all(bool(val(c, n)) == l for c, l in guards)
+            rejected.append((n, rej))
+    except Unk as ex:
+        E.unknown('extract_macros: $n range', 'cannot evaluate the range test (%s)' % ex)
+        return
+    want = {-1: True, 0: False, SIZE - 1: False, SIZE: True, SIZE + 1: True}
+    bad = [(n, r) for n, r in rejected if want[n] != r]
+    names = {-1: '-1', 0: '0', SIZE - 1: 'slots-1', SIZE: 'slots', SIZE + 1: 'slots+1'}
+    E.check(not bad, 'extract_macros: $n range', 'an insertion index n is rejected exactly when n < 0 or n >= number of slots (evaluated for -1, 0, slots-1, slots, slots+1)',
+            '; '.join('$n with n = %s is %s' % (names[n], 'rejected although it names a slot' if r else 'accepted although no such slot exists: get_replacement indexes template_token_indices out of bounds') for n, r in bad),
+            W(f, e, mm.facts), witness={'macro': 'DEFINE answer AS $0 END DEFINE  x0 := answer'} if bad else None)
 
 
 def detect_rule(G, mm):
@@ -1024,6 +1164,8 @@ def c12(rep, tier):
     gam = mm.M.cfg(am)
     pname = prios_name(am)
 
+    accumulated = []
+
     def no_conflict(c, depth=0):
         """+1: c is true iff the detector has no conflict error; -1: true iff it has one; None: unrelated/unknown"""
         c = strip_casts(c)
@@ -1036,6 +1178,13 @@ def c12(rep, tier):
             return None if v is None else -v
         t = show(c).replace(' ', '').lower()
         about = 'err' in t or 'gen_res' in t
+        # which list is tested?  this detector's own errors - or the list that accumulates the errors of all detectors
+        for x in walk_expr(c):
+            if (is_call(x, '::empty') or is_call(x, '::size')) and x.get('obj') is not None:
+                o = strip_casts(x['obj'])
+                if o.get('k') == 'member' and o.get('name') == 'errors' and 'MacroApplicationResult' in (strip_casts(o['base']).get('cty') or ''):
+                    accumulated.append(c)
+                    return None
         if is_call(c, '::empty') and about:
             return 1
         if c.get('k') == 'bin' and c['op'] in ('==', '!=', '>', '<', '>=', '<=') and 'size()' in t and about:
@@ -1117,6 +1266,10 @@ def c12(rep, tier):
             okb = lists.get(src.get('d')) is True
             B.check(okb, 'apply_macros: bins filled from %s' % src.get('name'), 'the priority bins are filled from a list that only receives conflict-free detectors',
                     'the bins are filled from %s, which also holds rejected detectors (rejected macros would be applied)' % src.get('name'), W(am, None, mm.facts))
+    if accumulated:
+        B.violation('apply_macros: usable only when no error so far', 'a detector is kept only when the ACCUMULATED error list (%s) is empty: after the first rejected macro every later '
+                    'macro is dropped without an error of its own and is never applied' % show(accumulated[0])[:60], W(am, accumulated[0], mm.facts),
+                    witness={'macros': 'a rejected macro defined before an accepted one'})
     if not srcs and not direct_ok:
         B.unknown('apply_macros: bins', 'cannot see how detectors reach the priority bins')
     Cc = rep.rule('C12.c', 'the loop collecting detector errors has no early exit (a rejected macro does not stop the others)', floor=1)
@@ -1259,6 +1412,8 @@ def c12(rep, tier):
                 missing = [x['name'] for x in rec['fields'] if x['name'] not in c.fields]
             why = [p[1] for p in problems] + (['field(s) %s do not take part: distinct keys collapse' % missing] if missing else [])
             E.check(not why, 'operator<(%s)' % pt, 'strict weak order over %s (%d triples), equivalent only if all fields equal' % (c.fields, cnt), '; '.join(why), W(f, None, kf))
+        except cmpeval.CrossField as ex:
+            E.violation('operator<(%s)' % f['params'][0]['cty'], str(ex), W(f, None, kf))
         except cmpeval.Lossy as ex:
             E.violation('operator<(%s)' % f['params'][0]['cty'], 'the order does not discriminate distinct keys: %s' % ex, W(f, None, kf))
         except cmpeval.Unsupported as ex:
@@ -1594,6 +1749,8 @@ def c06e(rep, tier):
             why = [p[1] for p in problems] + (['field %s ignored' % missing] if missing else [])
             E.check(not why, 'operator<(BreakPoint)', 'strict weak order over %s (%d triples), equivalent only if file and line are equal' % (c.fields, cnt),
                     '; '.join(why), W(f, None, kf))
+        except cmpeval.CrossField as ex:
+            E.violation('operator<(BreakPoint)', str(ex), W(f, None, kf))
         except cmpeval.Lossy as ex:
             E.violation('operator<(BreakPoint)', 'the order does not discriminate distinct locations: %s' % ex, W(f, None, kf))
         except cmpeval.Unsupported as ex:
@@ -1645,8 +1802,8 @@ def detector_grammar(mm):
 
 def c09_detector_grammar(rep, mm):
     from . import grammar as G
-    H = rep.rule('C09.h', 'each slot kind of the detector grammar derives only complete identifiers / integers / values / argument lists / '
-                          'statement sequences of the language (bounded language inclusion in the reference grammar)', floor=5)
+    H = rep.rule('C09.h', 'each slot kind of the detector grammar derives exactly the complete identifiers / integers / values / argument lists / '
+                          'statement sequences of the language (bounded language equality with the reference grammar)', floor=5)
     prods = detector_grammar(mm)
     start, ref = G.load_reference()
     ref = dict(ref)
@@ -1667,6 +1824,11 @@ def c09_detector_grammar(rep, mm):
         H.check(not extra and len(got) > 0, 'slot %s' % slot, '%d sentence(s) up to %d tokens, all derivable from %s of the language (%d)' % (len(got), N, rnt, len(want)),
                 'the detector lets slot %s match %s, which is not a complete %s of the language' % (slot, ' '.join(extra[0]) if extra else '(nothing)', rnt),
                 W(mm.facts.fn('MacroDetector::MacroDetector'), None, mm.facts), witness={'tokens': list(extra[0])} if extra else None)
+        missing = sorted(want - got, key=lambda s: (len(s), s))
+        H.check(not missing, 'slot %s: complete' % slot, 'every %s of the language up to %d tokens can fill the slot (%d)' % (rnt, N, len(want)),
+                'slot %s cannot be filled with %s, a complete %s of the language (%d such sentences up to %d tokens): a macro use with it is not recognised and stays '
+                'unexpanded' % (slot, ' '.join(missing[0]) if missing else '', rnt, len(missing), N),
+                W(mm.facts.fn('MacroDetector::MacroDetector'), None, mm.facts), witness={'tokens': list(missing[0])} if missing else None)
     rep.extra['detector_productions'] = sum(len(v) for v in dprods.values())
 
 
